@@ -9,7 +9,9 @@
    - `write_class` shortens names to the part after the last `$` only for classes written inside
      their parent (indent > 0);
    - `figure_out_files` fails when two parent-free classes get the same file name;
-   and after the C16 fix that limits the nesting of CLASS sections in the reader to 64.
+   and after the C16 fix that limits the nesting of CLASS sections in the reader to 64;
+   - (round 5) the text of a COMMENT line is everything after the first separator, as it is (`splitn(2, ..)`),
+     and the writer refuses a comment line that ends with a carriage return.
 
    A mapping set is the list of its classes in IndexMap order (two namespaces: every names row
    has two cells); the Enigma format stores neither namespaces nor a mappings-level comment. *)
@@ -78,14 +80,24 @@ Fixpoint split_ws (s : str) : list str :=
   | c :: s' => if java_ws c then [] :: split_ws s' else cons_first c (split_ws s')
   end.
 
+(* `line.splitn(2, JAVA_WHITESPACE)`: the part before the first separator and, when there is a separator,
+   everything after it as it is (a COMMENT line: the tag and the text; fix "a comment keeps its tabs and
+   spaces through the Enigma format") *)
+Fixpoint split_first_ws (s : str) : list str :=
+  match s with
+  | [] => [[]]
+  | c :: s' => if java_ws c then [[]; s'] else cons_first c (split_first_ws s')
+  end.
+
 Record eline := mkEline { el_ind : nat; el_first : str; el_fields : list str }.
 
 Definition enigma_line (l : str) : option eline :=
   let (n, r) := count_tabs l in
-  let r' := if starts_with s_COMMENT r then r else trim (strip_hash r) in
+  let is_comment := starts_with s_COMMENT r in
+  let r' := if is_comment then r else trim (strip_hash r) in
   match r' with
   | [] => None
-  | _ => match split_ws r' with
+  | _ => match (if is_comment then split_first_ws r' else split_ws r') with
          | f :: fs => Some (mkEline n f fs)
          | [] => None
          end
@@ -340,6 +352,24 @@ Definition comment_lines (ind : nat) (doc : option str) : list str :=
   | Some d => map (fun l => tabs ind ++ s_COMMENT ++ cSP :: l) (split_on cLF d)
   end.
 
+(* write_comment: a line of a comment (a `split('\n')` part) that ends with a carriage return is an error of
+   the writer — the reader would take the CR for a part of the line break (same fix) *)
+Fixpoint ends_cr (l : str) : bool :=
+  match l with
+  | [] => false
+  | c :: l' => match l' with [] => N.eqb c cCR | _ => ends_cr l' end
+  end.
+Definition doc_writable (doc : option str) : bool :=
+  match doc with
+  | None => true
+  | Some d => forallb (fun l => negb (ends_cr l)) (split_on cLF d)
+  end.
+Definition meth_docs_writable (m : meth) : bool :=
+  doc_writable (m_doc m) && forallb (fun p => doc_writable (p_doc p)) (m_params m).
+Definition class_docs_writable (c : class) : bool :=
+  doc_writable (c_doc c) && forallb (fun f => doc_writable (f_doc f)) (c_fields c)
+  && forallb meth_docs_writable (c_methods c).
+
 (* the comparators of the three sorts in write_class *)
 Definition field_wleb (a b : field) : bool :=
   is_le (lex (names_cmp (f_names a) (f_names b)) (str_cmp (f_desc a) (f_desc b))).
@@ -383,13 +413,19 @@ Definition short_name (nested : bool) (s : str) : str :=
 Definition class_line (ind : nat) (src : str) (dst : option str) : str :=
   tabs ind ++ s_CLASS ++ cSP :: src ++ (match dst with Some d => cSP :: d | None => [] end).
 
-Definition write_class (c : class) (ind : nat) : res (list str) :=
+(* the lines of a class whose comments can all be written *)
+Definition write_class_lines (c : class) (ind : nat) : res (list str) :=
   let nested := negb (Nat.eqb ind 0) in
   do ml <- map_res (write_meth (S ind)) (isort meth_wleb (c_methods c));
   Ok (class_line ind (short_name nested (cls_key c)) (option_map (short_name nested) (cls_dst c))
         :: comment_lines (S ind) (c_doc c)
         ++ flat_map (write_field (S ind)) (isort field_wleb (c_fields c))
         ++ concat ml).
+
+(* write_class fails when write_comment refuses a comment of the class, of a field, a method or a
+   parameter (the model does not say which of several errors comes first: an error is an error) *)
+Definition write_class (c : class) (ind : nat) : res (list str) :=
+  if class_docs_writable c then write_class_lines c ind else Err.
 
 (* figure_out_files *)
 Definition parent_in (M : list class) (c : class) : option str :=
